@@ -24,7 +24,7 @@ from harness import core
 from harness import lib_c02c14 as L
 
 FEAT = {"inline": False, "init": True, "unused": True, "func": True, "func_in_body": True, "nested_func": True,
-        "vary": True, "collide": True, "rmax": True, "mixed": True, "generic": True}
+        "vary": True, "collide": True, "rmax": True, "mixed": True, "generic": True, "func_if": True, "ml": True}
 
 
 # ------------------------------------------------------------------ (a) structure of the real build
@@ -289,6 +289,13 @@ def judge(spec, rng, feeds_first=None):
     out["status"] = st
     if st == "err":
         out["err"] = m
+        # a valid, deterministic program must build: the only documented reason to refuse one is a function
+        # whose body differs between calls
+        may_raise = L.keys_with_differing_bodies(spec)
+        if not ("two different definitions" in m and may_raise):
+            out["fails"].append(("valid-program-rejected",
+                                 f"build raised {m[:260]} although every function is used with one body "
+                                 f"(keys with differing bodies: {may_raise})"))
         return out
     if expected_raise:
         out["fails"].append(("inconsistent-bodies-merged",
@@ -417,6 +424,17 @@ HAND_SPECS = [
      "stmts": [["callg", 0, 0, "f32"], ["callg", 0, 1, "f64"]],
      "outputs": [["z", 2]], "drop": False, "funcs": [], "models": [],
      "generics": [{"name": "g", "domain": "gen.dom", "kind": "mulself"}]},
+    # control flow inside a function body; an ai.onnx.ml operator and a nested function only in the branches
+    {"args": ["f"], "inputs": [["x", 0]],
+     "stmts": [["call", 0, [0]]],
+     "outputs": [["z", 1]], "drop": False,
+     "funcs": [{"name": "outer", "domain": "dom", "nin": 1, "nout": 1,
+                "body": {"stmts": [["op", "pos", 17, [0]],
+                                   ["if", 1, {"stmts": [["op", "binarize", 17, [0]]], "outs": [2]},
+                                    {"stmts": [["call", 1, [0]]], "outs": [2]}, 17]], "outs": [2]}},
+               {"name": "inc", "domain": "demo.inc", "nin": 1, "nout": 1,
+                "body": {"stmts": [["const", [1.0, 1.0]], ["op", "add", 17, [0, 1]]], "outs": [2]}}],
+     "models": []},
     # mixed opset versions inside a function body
     {"args": ["f"], "inputs": [["x", 0]],
      "stmts": [["call", 0, [0]], ["op", "identity", 21, [1]]],
@@ -481,6 +499,10 @@ def run(ck: core.Check):
             if "two different definitions" in r["err"]:
                 dist["expected_raise_and_raised"] += 1
             ck.count(None)
+            for key, what in r["fails"]:  # a valid program that was refused
+                cur = best.get(key)
+                if cur is None or len(json.dumps(spec)) < len(json.dumps(cur[1])):
+                    best[key] = (what, spec, None)
             continue
         dist["returned"] += 1
         dist["runtime"][str(r["runtime"])[:40]] = dist["runtime"].get(str(r["runtime"])[:40], 0) + 1
@@ -490,8 +512,11 @@ def run(ck: core.Check):
             if cur is None or len(json.dumps(spec)) < len(json.dumps(cur[1])):
                 best[key] = (what, spec, r.get("feeds"))
     for key, (what, spec, feeds) in list(best.items())[:6]:
-        def same_failure(s, key=key, feeds=feeds):
-            return any(k == key for k, _ in judge(s, random.Random(0), feeds)["fails"])
+        def same_failure(s, key=key, feeds=feeds, what=what):
+            # (for a refused program: the same exception, so that shrinking cannot drift to another refusal)
+            sig = what[:60] if key == "valid-program-rejected" else None
+            return any(k == key and (sig is None or w[:60] == sig)
+                       for k, w in judge(s, random.Random(0), feeds)["fails"])
 
         try:  # shrink the witness (failure path only)
             small = L.shrink(spec, same_failure, budget=100)
